@@ -21,6 +21,8 @@ import traceback
 from . import coqrun
 
 VERIF = coqrun.VERIF
+REPO = os.environ.get("VERIF_REPO", "/repo")
+OUT = VERIF if os.path.realpath(REPO) == "/repo" else os.path.join(VERIF, ".work", "alt")
 ALL_IDS = ["C%02d" % i for i in range(1, 21)]
 
 
@@ -135,8 +137,8 @@ class Report:
         replay_obj = dict(replay_obj)
         replay_obj.update(property=self.pid, seed=self.seed, tier=self.tier,
                           replay_cmd="./check %s --replay %s" % (self.pid, rel))
-        os.makedirs(os.path.join(VERIF, "replays"), exist_ok=True)
-        with open(os.path.join(VERIF, rel), "w") as f:
+        os.makedirs(os.path.join(OUT, "replays"), exist_ok=True)
+        with open(os.path.join(OUT, rel), "w") as f:
             json.dump(replay_obj, f, indent=1, sort_keys=True, default=str)
         line = "VIOLATION property=%s replay=%s" % (self.pid, rel)
         if nofail:
@@ -350,8 +352,8 @@ def run_check(pid, tier, seed, replay=None):
         wall_s=wall, violations=rep.violations,
     )
     if replay is None:
-        os.makedirs(os.path.join(VERIF, "evidence"), exist_ok=True)
-        with open(os.path.join(VERIF, "evidence", pid + ".json"), "w") as f:
+        os.makedirs(os.path.join(OUT, "evidence"), exist_ok=True)
+        with open(os.path.join(OUT, "evidence", pid + ".json"), "w") as f:
             json.dump(ev, f, indent=1, sort_keys=True, default=str)
     print("%s %s seed=%d: theorems %d/%d, cases %d (model %d, nontrivial %d), mismatches %d, oracle failures %d, known %d, %.1fs"
           % (pid, tier, seed, audit["discharged"], audit["obligations"], len(cases), len(idx), len(nontriv),
